@@ -122,7 +122,7 @@ Section VMScalar.
 
   (* ---------------------------------------------------------------- values and operators *)
   Definition inj (v : F.sval) : value :=
-    match v with F.VNil => VNil | F.VBool b => VBool b | F.VInt z => VInt z end.
+    match v with F.VNil => VNil | F.VBool b => VBool b | F.VInt z => VInt z | F.VStr t => VStr t end.
   Definition cls (x : F.serr) : errk := match x with F.EType => XType | F.EDiv0 => XDiv0 end.
 
   Lemma truthy_inj v : truthy s (inj v) = Some (F.struthy v).
@@ -144,7 +144,7 @@ Section VMScalar.
   Proof.
     intros Hc Ho. rewrite N2Nat.id.
     destruct o; try discriminate; cbn in Ho; injection Ho as <- <-;
-      destruct a as [|p|p], b as [|q|q]; try reflexivity;
+      destruct a as [|p|p|p], b as [|q|q|q]; try reflexivity;
       cbn [F.sbin inj]; unfold binary_op; cbn [is_gonil inj];
       try reflexivity; destruct (q =? 0)%Z; reflexivity.
   Qed.
@@ -155,10 +155,10 @@ Section VMScalar.
   Proof.
     intros Hc Ho. rewrite N2Nat.id.
     destruct o; try discriminate; cbn in Ho; injection Ho as <- <-;
-      destruct a as [|p|p], b as [|q|q]; try reflexivity;
+      destruct a as [|p|p|p], b as [|q|q|q]; try reflexivity;
       cbn [F.sbin inj F.cmp_res]; unfold compare_op; cbn [is_gonil inj];
       try reflexivity; try (destruct p, q; reflexivity); try (destruct (p ?= q)%Z; reflexivity);
-      try (destruct (p =? q)%Z; reflexivity).
+      try (destruct (p =? q)%Z; reflexivity); try (destruct (F.str_cmp p q); reflexivity).
   Qed.
 
   (* ---------------------------------------------------------------- positions *)
@@ -208,7 +208,7 @@ Section VMScalar.
     exists k, forall f,
       run (k + f) (length pre) st = outcome_of e f (length pre + length (fst (F.cexp base e))) st.
   Proof.
-    induction e as [z|b| |i|a IHa|a IHa|o a IHa b IHb|a IHa b IHb|a IHa b IHb|cnd IHc t IHt el IHe];
+    induction e as [z|b| |str|i|a IHa|a IHa|o a IHa b IHb|a IHa b IHb|a IHa b IHb|cnd IHc t IHt el IHe];
       intros base pre post st Hwf Hi Hk Hn; unfold outcome_of; cbn [F.sev]; cbn [F.wf] in Hwf.
     - (* SInt *)
       cbn [F.cexp fst snd] in *. exists 1. intros f. cbn [Nat.add].
@@ -223,6 +223,11 @@ Section VMScalar.
       cbn [F.cexp fst snd] in *. exists 1. intros f. cbn [Nat.add length].
       rewrite (step_push f (length pre) st opNil VNil);
         [rewrite Nat.add_1_r; reflexivity|rewrite Hi; apply at0|auto|cbn [F.need] in Hn; lia].
+    - (* SStr *)
+      cbn [F.cexp fst snd] in *. exists 1. intros f. cbn [Nat.add].
+      rewrite step_const; [|rewrite Hi; apply at0|cbn [F.need] in Hn; lia].
+      assert (Hop : nth (length pre + 1) instr 0%N = N.of_nat base) by (rewrite Hi; apply at1).
+      rewrite Hop, Nat2N.id. pose proof (Hk 0 (KStr str) eq_refl) as Hz. rewrite Nat.add_0_r in Hz. rewrite Hz. reflexivity.
     - (* SVar *)
       apply Nat.ltb_lt in Hwf. destruct (nth_error rho i) as [v|] eqn:Ei; [|apply nth_error_None in Ei; lia].
       cbn [F.cexp fst snd] in *. exists 1. intros f. cbn [Nat.add].
